@@ -30,7 +30,10 @@ DESIGN_REF = "DESIGN.md §4 C05"
 EXHAUSTIVE = True
 
 bounds = c04.bounds
-plan = c04.plan
+
+
+def plan(tier, seed):
+    return [{"long_contig": True}] + c04.plan(tier, seed)
 
 
 def contig_end(g, c):
@@ -92,9 +95,27 @@ def region_queries(res, P):
             )
 
 
+def long_contig(res, scratch):
+    """a contig tiled by 30 unit-length segments, every one aligned: regions covering many nodes"""
+    L = gen.Layout((1,) * 30, "none", 1)
+    for lm in ("complete", "realistic"):
+        g = L.graph([(f"s{i}", "+", f"s{i + 1}", "+", "0M") for i in range(1, 30)], sn_last=(lm == "realistic"))
+        urecs = [gen.walk_record(i, [(">", f"s{i + 1}")], 0, 1, 1) for i in range(30)]
+        for stable in (False, True):
+            recs = [rgfa.to_stable_model(g, r) for r in urecs] if stable else urecs
+            P = c04.Prepared(scratch, g, L, lm, stable, "one-record-per-node", recs, "plain", "long")
+            if P.ind is None:
+                continue
+            region_queries(res, P)
+            res.count("long_contig_files")
+
+
 def run_shard(spec, tier, scratch):
-    res = fw.ShardResult()
+    res = fw.ShardResult().begin(spec, tier)
     b = bounds(tier)
+    if spec.get("long_contig"):
+        long_contig(res, scratch)
+        return res
     L = conv.layout_from(spec["layout"])
     for P in c04.prepared_files(scratch, L, spec["linkmode"], b["max_steps"], res, "C05"):
         if res.stats.get("files_abandoned_after_repeated_nontermination", 0):
@@ -109,6 +130,8 @@ def run_shard(spec, tier, scratch):
 def replay(case, scratch):
     res = fw.ShardResult()
     L = conv.layout_from(case["layout"])
+    if len(L.ref_lens) == 30:
+        return []  # the long-contig file is re-created through its call sequence
     g = vi.graph_for(L, case["linkmode"])
     recs = [rgfa.Rec.parse(l) for l in case["records"]]
     P = c04.Prepared(scratch, g, L, case["linkmode"], case["stable"], "replay", recs, case["variant"], "rp")
